@@ -11,6 +11,9 @@ import (
 	"github.com/juev/hledger-lsp/internal/ast"
 )
 
+// maxAmountExponent bounds the decimal exponent of an amount (|exponent| <= 1000).
+const maxAmountExponent = 1000
+
 type ParseError struct {
 	Message string
 	Pos     Position
@@ -355,6 +358,12 @@ func (p *Parser) parseAmount() *ast.Amount {
 	qty, err := decimal.NewFromString(numberStr)
 	if err != nil {
 		p.error("invalid number: %s", p.current.Value)
+		return nil
+	}
+	// Decimal arithmetic materialises the exponent gap (1E9999999 + 1 has ten million
+	// digits) and panics when exponents leave the int32 range: bound it here.
+	if exp := qty.Exponent(); exp > maxAmountExponent || exp < -maxAmountExponent {
+		p.error("invalid number: exponent out of range: %s", p.current.Value)
 		return nil
 	}
 	amount.Quantity = qty
